@@ -19,9 +19,14 @@ fn cfg(mode: TransportMode) -> RtcConfiguration {
     c.disable_ipv6 = true;
     c
 }
+/// The clock is paused (tokio test-util): a bounded timer wait inside the stack (e.g. the 2 s
+/// wait for a suitable local candidate in `start_direct`, the 500 ms gathering wait in SDES mode)
+/// auto-advances instead of being charged to the remote input, while a wait without a timer
+/// still blocks for real and is caught as a hang.
 fn rt() -> tokio::runtime::Runtime {
     tokio::runtime::Builder::new_current_thread()
         .enable_all()
+        .start_paused(true)
         .build()
         .unwrap_or_else(|e| crate::machinery_failure(&format!("tokio runtime: {e}")))
 }
